@@ -1,7 +1,7 @@
 (* Record types for opcode tables (instantiated by Gen/Opcodes.v from /repo and
    Gen/RefOpcodes.v from the installed interpreters). *)
 From Xdis Require Import Base.Prelude.
-Open Scope string_scope.
+Local Open Scope string_scope.
 
 Record optable := {
   t_name : string;
